@@ -623,3 +623,93 @@ Proof.
     + apply (te_tot_all skip b). intros m Hm. apply Wd. eapply pre_kid; eauto. eapply fd_body_kid; eauto.
   - destruct (N.eqb (na d) tok_IMPORT); [discriminate|]. apply (te_tot_all skip d). exact Wd.
 Qed.
+
+(* ---------- the comment walkers ---------- *)
+Lemma concat_flush acc : concat (flush_group acc) = acc.
+Proof. destruct acc; simpl; [reflexivity|rewrite app_nil_r; reflexivity]. Qed.
+
+Lemma split_groups_concat l : forall acc, concat (split_groups l acc) = (acc ++ l)%list.
+Proof.
+  induction l as [|c r IH]; simpl; intros acc.
+  - rewrite concat_flush, app_nil_r. reflexivity.
+  - destruct (snd c).
+    + rewrite concat_app, concat_flush. simpl. rewrite IH. reflexivity.
+    + rewrite IH, <- app_assoc. reflexivity.
+Qed.
+
+(* every comment of the file is shown exactly once, in order: the shown groups partition f.Comments *)
+Lemma walk_comments_partition cs : concat (walk_comments cs) = concat (c_groups cs).
+Proof.
+  unfold walk_comments. induction (c_groups cs) as [|g r IH]; simpl; [reflexivity|].
+  rewrite concat_app, IH, split_groups_concat. reflexivity.
+Qed.
+
+(* a shown group is never empty (commentFormatting reads cg.List[0]) and never mixes the two comment forms *)
+Definition group_uniform (g : list (N * bool)) : Prop :=
+  g <> [] /\ (forallb (fun c => negb (snd c)) g = true \/ exists c, g = [c] /\ snd c = true).
+
+Lemma flush_uniform acc g : forallb (fun c => negb (snd c)) acc = true -> In g (flush_group acc) -> group_uniform g.
+Proof.
+  destruct acc as [|a r]; simpl; intros H Hg; [contradiction|]. destruct Hg as [<-|[]]. split; [discriminate|left; exact H].
+Qed.
+
+Lemma split_groups_uniform l : forall acc g, forallb (fun c => negb (snd c)) acc = true -> In g (split_groups l acc) -> group_uniform g.
+Proof.
+  induction l as [|c r IH]; simpl; intros acc g Hacc Hg.
+  - eapply flush_uniform; eauto.
+  - destruct (snd c) eqn:B.
+    + apply in_app_or in Hg as [Hg|[<-|Hg]].
+      * eapply flush_uniform; eauto.
+      * split; [discriminate|right; eauto].
+      * eapply IH; [|exact Hg]. reflexivity.
+    + eapply IH; [|exact Hg]. rewrite forallb_app, Hacc. simpl. rewrite B. reflexivity.
+Qed.
+
+Lemma walk_comments_uniform cs g : In g (walk_comments cs) -> group_uniform g.
+Proof.
+  unfold walk_comments. intros H. apply in_flat_map in H as [g0 [_ H]]. eapply split_groups_uniform; [|exact H]. reflexivity.
+Qed.
+
+Lemma split_groups_members l : forall acc g c, In g (split_groups l acc) -> In c g -> In c (acc ++ l)%list.
+Proof.
+  intros acc g c Hg Hc. rewrite <- split_groups_concat. apply in_concat. eauto.
+Qed.
+
+Lemma walk_local_comments_members enter f cs g c :
+  In g (walk_local_comments enter f cs) -> In c g -> In c (concat (c_groups cs)) /\ group_uniform g.
+Proof.
+  unfold walk_local_comments. intros H Hc. apply in_flat_map in H as [dr [_ H]].
+  destruct (_ && _); [|contradiction]. apply in_flat_map in H as [g0 [Hg0 H]].
+  destruct (_ && _); [|contradiction]. split.
+  - apply in_concat. exists g0. split; [exact Hg0|]. apply (split_groups_members g0 [] g c H Hc).
+  - eapply split_groups_uniform; [|exact H]. reflexivity.
+Qed.
+
+Lemma doc_lookup_In tbl code pos g : In g (doc_lookup tbl code pos) -> In (code, pos, g) tbl.
+Proof.
+  induction tbl as [|[[c p] g0] r IH]; simpl; [tauto|].
+  destruct (N.eqb c code && N.eqb p pos) eqn:E.
+  - intros [<-|[]]. apply andb_true_iff in E as [E1 E2]. apply N.eqb_eq in E1, E2. subst. auto.
+  - intros H. right. auto.
+Qed.
+
+(* the doc-comment walker only shows Doc fields, and only of nodes of the file *)
+Lemma walk_doc_comments_docs f cs g :
+  In g (walk_doc_comments f cs) -> exists n, In n (all_nodes f) /\ In (tag_code n, npos n, g) (c_docs cs).
+Proof.
+  unfold walk_doc_comments. intros H. apply in_flat_map in H as [d [Hd H]]. apply decl_in_all in Hd.
+  assert (K : forall n, In n (all_nodes f) -> In g (doc_of cs n) -> exists n0, In n0 (all_nodes f) /\ In (tag_code n0, npos n0, g) (c_docs cs)).
+  { intros n Hn Hg. exists n. split; [exact Hn|]. apply doc_lookup_In. exact Hg. }
+  destruct (ntag d); try contradiction.
+  - eapply K; eauto.
+  - apply in_app_or in H as [H|H]; [eapply K; eauto|].
+    apply in_flat_map in H as [spec [Hs H]].
+    assert (Hs' : In spec (all_nodes f)) by (eapply all_nodes_kid; eauto).
+    destruct (_ || _); [eapply K; eauto|].
+    destruct (is_tag TTypeSpec spec); [|contradiction].
+    apply in_app_or in H as [H|H]; [eapply K; eauto|].
+    destruct (rev (kids spec)) as [|ty ?] eqn:Rv; [contradiction|].
+    apply in_flat_map in H as [fld [Hf H]]. apply filter_In in Hf as [Hf _].
+    apply (K fld); [|exact H]. eapply all_nodes_closed; [|exact Hf]. eapply all_nodes_kid; eauto.
+    apply in_rev. rewrite Rv. left. reflexivity.
+Qed.
